@@ -13,7 +13,7 @@ def main():
         print("SANY failed on %s\n%s" % (f, out))
     jobs = []
     for fl in ("rel", "asan-ubsan"):
-        for exe in ("record", "replay", "record_algo"):
+        for exe in ("record", "replay", "record_algo", "record_proto"):
             jobs.append((fl, exe))
     jobs.append(("asan", "record_algo"))
     vlib.build_many(jobs)
